@@ -181,6 +181,66 @@ if on('b'):
     except ImportError:
         print('section (b) (prune / marginalize loops): not delivered in this copy')
 
+if on('c'):
+    # (c) the LAW of `BinaryCLT.sample`: the Bernoulli parameters the implementation hands to `ss.bernoulli.rvs` are recorded (the
+    # library module's `ss` is replaced by a recorder that draws from its own generator); for every row the product of the probabilities
+    # of the draws that were made  =  the probability the GENERATED loop (`Gen.S5cltSampleLoop` on weighted rows, op `s5_clt_sample`)
+    # assigns to the returned row  =  value(returned row) / value(evidence)   (`E2ECltSample.e2e_sample_loop_law`)
+    import deeprob.spn.structure.cltree as CT
+
+    class _Bern:
+        def __init__(self, rs):
+            self.rs, self.calls = rs, []
+
+        def rvs(self, p, *a, **k):
+            p = np.asarray(p, dtype=np.float64)
+            self.calls.append(p.copy())
+            return (self.rs.rand(*p.shape) < p).astype(np.int64)
+
+    class _SS:
+        def __init__(self, real, rs):
+            self._real, self.bernoulli = real, _Bern(rs)
+
+        def __getattr__(self, name):
+            return getattr(self._real, name)
+
+    real_ss = CT.ss
+    rs = np.random.RandomState(seed)
+    try:
+        for n in range(1, min(4, int(os.environ.get("TR5_MAXN", "5"))) + 1):
+            for pred in all_preds(n):
+                clt = make_clt(pred)
+                cj = clt_json(clt)
+                rows = [r for r in rows_for(n) if any(v is None for v in r)]
+                x = np.array([[np.nan if v is None else float(v) for v in r] for r in rows], dtype=np.float32)
+                rec = _SS(real_ss, rs)
+                CT.ss = rec
+                try:
+                    out = clt.sample(x)
+                finally:
+                    CT.ss = real_ss
+                order = [int(clt.root)] + [int(j) for j in clt.bfs[1:]]
+                mis = np.isnan(x)
+                ok_shape = len(rec.bernoulli.calls) == len(order) and all(len(p) == int(mis[:, j].sum()) for p, j in zip(rec.bernoulli.calls, order))
+                check('c.sample.calls', ok_shape and not np.isnan(out).any() and np.array_equal(out[~mis], x[~mis]), (cj, 'one rvs call per variable in bfs order'))
+                if not ok_shape:
+                    continue
+                prob = np.ones(len(rows))
+                for p, j in zip(rec.bernoulli.calls, order):
+                    idx = np.nonzero(mis[:, j])[0]
+                    prob[idx] *= np.where(out[idx, j] == 1, p, 1.0 - p)
+                for r in range(len(rows)):
+                    rv, tv = [None] * n, [None] * n
+                    for i in range(n):
+                        rv[clt.scope[i]] = rows[r][i]
+                        tv[clt.scope[i]] = int(out[r, i])
+                    a, b = D.ask(dict(cj, op='s5_clt_sample', row=rv, target=tv)).split()
+                    ok = a == b and close(float(pq(a)), prob[r], 2e-4)
+                    check('c.sample.law', ok, (cj, rv, tv, a, b, float(prob[r])))
+            print(f'sample law, n={n} done', flush=True)
+    finally:
+        CT.ss = real_ss
+
 for k in sorted(counts):
     print(f'{k}: {counts[k]}')
 print('disagreements:', len(bad))
